@@ -287,34 +287,49 @@ func runImpl(cases []Case, perCase time.Duration) ([]implRes, int) {
 // runModel pipes all model cases through the Lean driver.
 func runModel(cases []Case, driver string) (map[int]string, error) {
 	out := map[int]string{}
-	n := 0
+	var pending []int
 	for i := range cases {
 		if !cases[i].NoModel {
-			n++
+			pending = append(pending, i)
 		}
 	}
-	if n == 0 {
-		return out, nil
+	deaths := 0
+	for len(pending) > 0 {
+		answered, err := runDriverOnce(cases, pending, driver, out)
+		if answered >= len(pending) {
+			break
+		}
+		// the driver died (stack exhaustion on a deeply recursive program, typically) while working on
+		// pending[answered]: that case is outside what the executable model can evaluate; go on after it
+		deaths++
+		out[cases[pending[answered]].ID] = "(unsupported model-driver-died)"
+		pending = pending[answered+1:]
+		if deaths > 50 {
+			return out, fmt.Errorf("model driver died %d times, last: %v", deaths, err)
+		}
 	}
-	cmd := exec.Command(driver)
+	return out, nil
+}
+
+// runDriverOnce feeds the pending cases to one driver process; answers come back in order, one line
+// per case, flushed per line.  Returns how many were answered.
+func runDriverOnce(cases []Case, pending []int, driver string, out map[int]string) (int, error) {
+	cmd := exec.Command("sh", "-c", `ulimit -s 4000000 2>/dev/null || ulimit -s unlimited 2>/dev/null; exec "$0"`, driver)
 	stdin, err := cmd.StdinPipe()
 	if err != nil {
-		return nil, err
+		return 0, err
 	}
 	stdout, err := cmd.StdoutPipe()
 	if err != nil {
-		return nil, err
+		return 0, err
 	}
-	cmd.Stderr = os.Stderr
+	cmd.Stderr = io.Discard
 	if err := cmd.Start(); err != nil {
-		return nil, err
+		return 0, err
 	}
 	go func() {
 		bw := bufio.NewWriterSize(stdin, 1<<20)
-		for i := range cases {
-			if cases[i].NoModel {
-				continue
-			}
+		for _, i := range pending {
 			bw.WriteString(sx.L(sx.I(int64(cases[i].ID)), cases[i].Cmd).String())
 			bw.WriteByte('\n')
 		}
@@ -322,24 +337,24 @@ func runModel(cases []Case, driver string) (map[int]string, error) {
 		stdin.Close()
 	}()
 	rd := bufio.NewReaderSize(stdout, 1<<20)
+	answered := 0
 	for {
 		l, err := rd.ReadString('\n')
-		if len(l) > 0 {
+		if len(l) > 0 && strings.HasSuffix(l, "\n") {
 			x, perr := sx.Parse(strings.TrimRight(l, "\n"))
 			if perr == nil && x.K == sx.List && len(x.Xs) == 2 && x.Xs[0].K == sx.Atom {
 				var id int
 				fmt.Sscanf(x.Xs[0].A, "%d", &id)
 				out[id] = x.Xs[1].String()
 			}
+			answered++
 		}
 		if err != nil {
 			break
 		}
 	}
-	if err := cmd.Wait(); err != nil {
-		return out, fmt.Errorf("model driver: %v", err)
-	}
-	return out, nil
+	werr := cmd.Wait()
+	return answered, werr
 }
 
 // ---------------------------------------------------------------- results
@@ -370,15 +385,16 @@ type StreamStat struct {
 }
 
 type Result struct {
-	Property string                 `json:"property"`
-	Seed     uint64                 `json:"seed"`
-	Tier     string                 `json:"tier"`
-	Streams  map[string]*StreamStat `json:"streams"`
-	Issues   []Issue                `json:"issues"`
-	Samples  []map[string]string    `json:"samples"`
-	Restarts int                    `json:"worker_restarts"`
-	WallS    float64                `json:"wall_s"`
-	Error    string                 `json:"error,omitempty"`
+	Property     string                 `json:"property"`
+	Seed         uint64                 `json:"seed"`
+	Tier         string                 `json:"tier"`
+	Streams      map[string]*StreamStat `json:"streams"`
+	Issues       []Issue                `json:"issues"`
+	Samples      []map[string]string    `json:"samples"`
+	DriverDeaths []string               `json:"model_driver_deaths,omitempty"` // cases the executable model could not evaluate (driver process died)
+	Restarts     int                    `json:"worker_restarts"`
+	WallS        float64                `json:"wall_s"`
+	Error        string                 `json:"error,omitempty"`
 }
 
 func classOf(obs string) string {
@@ -529,6 +545,9 @@ func Run(pid, tier string, seed uint64, driver, outPath, corpusDir string, only 
 					st.UnsupportedWhy = map[string]int{}
 				}
 				st.UnsupportedWhy[clip(m, 60)]++
+				if strings.HasPrefix(m, "(unsupported model-driver-died") && len(res.DriverDeaths) < 10 {
+					res.DriverDeaths = append(res.DriverDeaths, clip(c.Cmd.String(), 300)+" | meta "+clip(metaS, 12000))
+				}
 				bothDiverge := strings.HasPrefix(m, "(unsupported fuel") && (impl[i].obs == "(hang)" || impl[i].obs == "(crash process-died)")
 				if !bothDiverge && (impl[i].obs == "(hang)" || strings.HasPrefix(impl[i].obs, "(crash")) {
 					x := iss
